@@ -176,6 +176,8 @@ struct Uni {
 	mc: bool,
 	/// pool-capacity: pool operations only, deeper
 	cap: bool,
+	/// pool-reorg: narrow alphabet around the reorg cache, deeper
+	reorg: bool,
 	tier: Tier,
 	kc: ExtKeychain,
 	tree: Tree,
@@ -273,6 +275,7 @@ impl Uni {
 		Uni {
 			mc,
 			cap: false,
+			reorg: false,
 			tier,
 			kc: uni::keychain(seed),
 			tree,
@@ -364,6 +367,11 @@ fn build_mc(udir: &Path, tier: Tier, sc: &uni::Scratch) -> Uni {
 	let t12 = transaction::aggregate(&[t2.clone(), t6.clone()]).expect("aggregate T2 T6");
 	// a child of TWO pooled parents (spends the outputs of T1 and of T2)
 	let t13 = uni::spend_plain(&kc, &[(101, REWARD - 30), (102, REWARD - 2000)], &[(113, 2 * REWARD - 2030 - 400)], None, 13);
+	// two coinbase inputs (2 and 4): shares one with T2 and the other with T11
+	let t14 = {
+		let pb = ProofBuilder::new(&kc);
+		uni::tx(&kc, KernelFeatures::Plain { fee: 900u32.into() }, &[build::coinbase_input(REWARD, uni::kid(2)), build::coinbase_input(REWARD, uni::kid(4)), build::output(2 * REWARD - 900, uni::kid(114))], &pb, 14).expect("T14")
+	};
 	for (n, t, k) in [
 		("T1", &t1, Kind::Plain),
 		("T2", &t2, Kind::Plain),
@@ -378,6 +386,7 @@ fn build_mc(udir: &Path, tier: Tier, sc: &uni::Scratch) -> Uni {
 		("T11", &t11, Kind::Plain),
 		("T12", &t12, Kind::Agg),
 		("T13", &t13, Kind::Plain),
+		("T14", &t14, Kind::Plain),
 	] {
 		txs.push(UTx { name: n.to_string(), tx: t.clone(), kind: k });
 	}
@@ -515,7 +524,7 @@ enum Op {
 	Header(bool),
 }
 
-const CONNECT_SETS: &[(&str, &[&str])] = &[("{}", &[]), ("{T1}", &["T1"]), ("{T3}", &["T3"]), ("{T1,T4}", &["T1", "T4"])];
+const CONNECT_SETS: &[(&str, &[&str])] = &[("{}", &[]), ("{T1}", &["T1"]), ("{T3}", &["T3"]), ("{T1,T4}", &["T1", "T4"]), ("{T11}", &["T11"])];
 
 impl Op {
 	fn show(&self, u: &Uni) -> String {
@@ -563,6 +572,24 @@ fn alphabet(u: &Uni, tier: Tier) -> Vec<Op> {
 	if !u.mc {
 		return vec![Op::Body(true), Op::Body(false), Op::Header(true), Op::Header(false)];
 	}
+	if u.reorg {
+		// the reorg cache: a two-input transaction (T14: coinbases 2 and 4) that a main-chain block carrying T11
+		// (coinbase 4) pushes out of the txpool but not out of the cache, transactions spending its other input
+		// (T2: coinbase 2) submitted stem and fluff meanwhile, and the fork that brings T14 back
+		let mut v = vec![
+			Op::Submit(u.tx_index("T14").unwrap(), false),
+			Op::Submit(u.tx_index("T2").unwrap(), true),
+			Op::Submit(u.tx_index("T2").unwrap(), false),
+			Op::Connect(4),
+			Op::ForkBlock,
+		];
+		if tier == Tier::Thorough {
+			v.push(Op::Submit(u.tx_index("T14").unwrap(), true));
+			v.push(Op::Connect(0));
+			v.push(Op::Mine);
+		}
+		return v;
+	}
 	if u.cap {
 		let mut v = vec![];
 		let full = tier == Tier::Thorough;
@@ -589,8 +616,8 @@ fn alphabet(u: &Uni, tier: Tier) -> Vec<Op> {
 	let full = tier == Tier::Thorough;
 	let mut v = vec![];
 	for i in 0..u.txs.len() {
-		// T11 belongs to the capacity part
-		if u.txs[i].name == "T11" || (u.txs[i].name == "T13" && !full) {
+		// T11 belongs to the capacity part, T14 to the reorg part
+		if u.txs[i].name == "T11" || u.txs[i].name == "T14" || (u.txs[i].name == "T13" && !full) {
 			continue;
 		}
 		v.push(Op::Submit(i, false));
@@ -599,7 +626,7 @@ fn alphabet(u: &Uni, tier: Tier) -> Vec<Op> {
 			v.push(Op::Submit(i, true));
 		}
 	}
-	for s in 0..CONNECT_SETS.len() {
+	for s in 0..4 {
 		if full || s != 3 {
 			v.push(Op::Connect(s));
 		}
@@ -1283,7 +1310,7 @@ fn case_json(u: &Uni, ops: &[String], extra: Option<String>, key: &str, probe: O
 	if let Some(e) = extra {
 		o.push(e);
 	}
-	json!({"part": if u.cap { "pool-capacity" } else if u.mc { "pool-mc" } else { "c13-pool" }, "tier": u.tier.name(), "ops": o, "key": key, "probe": probe})
+	json!({"part": if u.reorg { "pool-reorg" } else if u.cap { "pool-capacity" } else if u.mc { "pool-mc" } else { "c13-pool" }, "tier": u.tier.name(), "ops": o, "key": key, "probe": probe})
 }
 
 fn viol_json(u: &Uni, ops: &[String], extra: Option<String>, v: &Viol, state: &str) -> Value {
@@ -1644,6 +1671,7 @@ fn worker(part: &str, udir: &Path) -> i32 {
 	let mc = part != "c13-pool";
 	let mut u = Uni::load(udir, if mc { SEED_MC } else { SEED_13 });
 	u.cap = part == "pool-capacity";
+	u.reorg = part == "pool-reorg";
 	let sc = uni::Scratch::new(if mc { "c14w" } else { "c13w" });
 	let mut rep = Report::new();
 	let mut cache = MineCache::default();
@@ -1899,6 +1927,7 @@ pub fn run_part(part: &'static str, tier: Tier) -> Report {
 	let sc = uni::Scratch::new(match part {
 		"pool-mc" => "c14",
 		"pool-capacity" => "c14-cap",
+		"pool-reorg" => "c14-reorg",
 		_ => "c14-13",
 	});
 	let udir = sc.fresh("universe");
@@ -1913,6 +1942,7 @@ pub fn run_part(part: &'static str, tier: Tier) -> Report {
 		let t0 = Instant::now();
 		let mut u = if part != "c13-pool" { build_mc(&ud, tier, scr) } else { build_13(&ud, tier, scr) };
 		u.cap = part == "pool-capacity";
+		u.reorg = part == "pool-reorg";
 		rep.extra.insert("universe_build_s".into(), json!((t0.elapsed().as_secs_f64() * 10.0).round() / 10.0));
 		rep.extra.insert("universe_blocks".into(), json!(u.tree.blocks.len()));
 		rep.extra.insert("universe_txs".into(), json!(u.txs.iter().map(|t| format!("{}:{}", t.name, t.kind.name())).collect::<Vec<_>>()));
@@ -1923,6 +1953,8 @@ pub fn run_part(part: &'static str, tier: Tier) -> Report {
 			Bounds { at_discovery: true, workers: tier.pick(7, 9), max_depth: tier.pick(3, 6), budget_s: tier.pick(31.0, 720.0) }
 		} else if part == "pool-capacity" {
 			Bounds { at_discovery: true, workers: tier.pick(3, 2), max_depth: tier.pick(5, 7), budget_s: tier.pick(31.0, 600.0) }
+		} else if part == "pool-reorg" {
+			Bounds { at_discovery: true, workers: tier.pick(3, 3), max_depth: tier.pick(6, 8), budget_s: tier.pick(31.0, 600.0) }
 		} else {
 			Bounds { at_discovery: false, workers: tier.pick(6, 5), max_depth: 64, budget_s: tier.pick(31.0, 720.0) }
 		});
@@ -1956,13 +1988,14 @@ impl Engine for C14 {
 		}
 	}
 	fn parts(&self, _tier: Tier) -> Vec<(&'static str, usize)> {
-		vec![("pool-mc", 1), ("pool-capacity", 1), ("c13-pool", 1)]
+		vec![("pool-mc", 1), ("pool-capacity", 1), ("pool-reorg", 1), ("c13-pool", 1)]
 	}
 	fn run_part(&self, part: &str, tier: Tier, _shard: usize, _n: usize) -> Report {
 		run_part(
 			match part {
 				"pool-mc" => "pool-mc",
 				"pool-capacity" => "pool-capacity",
+				"pool-reorg" => "pool-reorg",
 				_ => "c13-pool",
 			},
 			tier,
@@ -1991,6 +2024,7 @@ impl Engine for C14 {
 		if part != "c13-pool" {
 			let mut u = build_mc(&udir, tier, &sc);
 			u.cap = part == "pool-capacity";
+			u.reorg = part == "pool-reorg";
 			let mut live = Live::root(&u, &sc);
 			let mut cache = MineCache::default();
 			let mut ctx = context(&u, None, &live);
